@@ -730,3 +730,53 @@ func TestIsolationBetweenDatabasesAndConcurrency(t *testing.T) {
 		}
 	}
 }
+
+func TestPreparedStatements(t *testing.T) {
+	db, e := openShop(t)
+	ins, err := db.Prepare("INSERT INTO owners (name, age) VALUES ($1, $2) RETURNING id")
+	if err != nil {
+		t.Fatal(err)
+	}
+	defer ins.Close()
+	for i, name := range []string{"a", "b", "c"} {
+		var id int64
+		if err := ins.QueryRow(name, 1).Scan(&id); err != nil || id != int64(i+1) {
+			t.Errorf("%d %v", id, err)
+		}
+	}
+	_, err = ins.Exec("d")
+	wantClass(t, err, "placeholder")
+	_, err = ins.Exec("d", 1, 2)
+	wantClass(t, err, "placeholder")
+	_, err = ins.Exec("d", 7)
+	wantClass(t, err, "check")
+	// errors detected at Prepare time, and recorded
+	e.ResetLog()
+	_, err = db.Prepare("SELECT id FROM nope")
+	wantClass(t, err, "undefined_table")
+	_, err = db.Prepare("SELECT nope FROM owners")
+	wantClass(t, err, "undefined_column")
+	_, err = db.Prepare("SELECT FROM")
+	wantClass(t, err, "syntax")
+	_, err = db.Prepare("INSERT INTO owners (name) VALUES ($1, $2)")
+	wantClass(t, err, "arity")
+	if log := e.Log(); len(log) != 4 || log[0].Kind != "select" || log[3].Table != "owners" || log[3].Err == nil {
+		t.Errorf("log = %+v", log)
+	}
+	// INSERT ... DEFAULT and literals
+	mustExec(t, db, "INSERT INTO owners (id, name, age, nick) VALUES (DEFAULT, 'lit', 2, NULL)")
+	if got := e.Rows("owners"); len(got) != 4 || !reflect.DeepEqual(got[3], []driver.Value{int64(5), "lit", int64(2), nil}) {
+		t.Errorf("owners = %v", got)
+	}
+	// an *sql.Stmt survives its statement failing, and Query on a statement without RETURNING gives no row
+	sel, _ := db.Prepare("DELETE FROM owners WHERE id = $1")
+	rows, err := sel.Query(5)
+	if err != nil || rows.Next() {
+		t.Errorf("%v", err)
+	}
+	rows.Close()
+	sel.Close()
+	if e.RowCount("owners") != 3 {
+		t.Error("delete through Query")
+	}
+}
